@@ -15,11 +15,11 @@ def engine_hash():
     return h.hexdigest()[:16]
 
 _EH = [None]
-def cached_explore(pp, entry, n, stats_acc):
+def cached_explore(pp, entry, n, stats_acc, mode='', extra_pc_fn=None):
     """exploration of (harness MIR, entry, n), content-addressed: a hit reuses the result of executing byte-identical
     MIR with the same engine"""
     if _EH[0] is None: _EH[0] = engine_hash()
-    key = hashlib.sha256(f'{pp.h.mir_hash()}|{_EH[0]}|{entry}|{n}'.encode()).hexdigest()[:32]
+    key = hashlib.sha256(f'{pp.h.mir_hash()}|{_EH[0]}|{entry}|{n}|{mode}'.encode()).hexdigest()[:32]
     cdir = os.path.join(harness.WORK, 'cache'); os.makedirs(cdir, exist_ok=True)
     path = os.path.join(cdir, key + '.pkl')
     if os.environ.get('VERIF_NOCACHE') != '1' and os.path.exists(path):
@@ -30,7 +30,7 @@ def cached_explore(pp, entry, n, stats_acc):
             return results, st, True
         except Exception:
             pass
-    results, st = run.explore(pp, entry, n)
+    results, st = run.explore(pp, entry, n, extra_pc_fn=extra_pc_fn)
     tmp = path + '.tmp%d' % os.getpid()
     pickle.dump((results, st), open(tmp, 'wb')); os.replace(tmp, path)
     stats_acc['explored_paths'] += len(results); stats_acc['steps'] += st['steps']; stats_acc['queries'] += st['queries']
